@@ -657,6 +657,35 @@ func c10Enumerate(tier string, emit explore.Emit) {
 			}
 		}
 	}
+	for _, l := range []int{20000, 65536, 1 << 20} {
+		for _, body := range []int{9999, 10000, 10001, 16384, l - 1, l} {
+			l, body := l, body
+			emit(explore.Case{Family: "after-refused-ssl", Size: 2,
+				Desc: func() any {
+					return map[string]any{"limit": l, "query_body": body, "session": "SSLRequest (refused), start-up, Query, probe"}
+				},
+				Run: func() explore.Result {
+					var res explore.Result
+					res.Outcome = "within-limit"
+					res.Key = fmt.Sprint("after-ssl", l, body)
+					q := progRows + strings.Repeat(" ", body-len(progRows)-1)
+					stream := pgproto.Cat(pgproto.SSLRequest(), pgproto.Startup("user", "u"), pgproto.Query(q), pgproto.Query(progRows))
+					o := c04RunLimit(false, c04Feed{Stream: stream}, false, l)
+					if o.engine != "" {
+						res.Engine = o.engine
+						return res
+					}
+					k := harness.Kinds(o.out[1:])
+					if i := strings.IndexByte(k, 'Z'); i >= 0 {
+						k = k[i+1:]
+					}
+					if len(o.out) == 0 || o.out[0] != 'N' || k != "TDCZTDCZ" {
+						res.Fail("within-limit-rejected", fmt.Sprintf("limit %d, connection that first sent a (refused) SSLRequest: a Query with a %d-byte body and a probe were answered %q (expected both to be served)", l, body, k))
+					}
+					return res
+				}})
+		}
+	}
 	// several oversized messages of different sizes in one session: each is skipped in full by ITS declared length
 	for _, l := range []int{32, 1024} {
 		sizes := []int{l + 1, l + 9, l + 22, 2*l + 1, 3*l + 7}
